@@ -241,7 +241,7 @@ def check_C07(ctx):
     if n1 == 0 or n2 == 0:
         raise ToolError("behaviour generation produced nothing (%d, %d)" % (n1, n2))
     with open(beh, "w") as f:
-        for p in (beh + ".1", beh + ".2"):
+        for p in (beh + ".1", beh + ".2", beh + ".3"):
             f.write(open(p).read())
     trace = ctx.path("trace.ndjson")
     vlib.vh(["peers", "--in", beh, "--out", trace])
@@ -420,23 +420,30 @@ CHECK_DEADLOCK FALSE
         raise ToolError("MC_Table (single contact life) violated %s" % g3.inv_violated)
     ctx.add_mc("MC_Table(single contact, depth=%d)" % (7 if q else 8), g3)
     n3 = vlib.extract_replays(g3, beh + ".3raw")
-    with open(beh + ".1", "a") as f:
+    seen3 = set()
+    with open(beh + ".3", "w") as f:
         for line in open(beh + ".3raw"):
             ops = [o for o in json.loads(line) if o.get("op") != "quest"]
+            key = json.dumps(ops)
+            if key in seen3 or len(ops) < 5:
+                continue
+            seen3.add(key)
             f.write(json.dumps({"meta": {"bits": 4, "self": 5, "routers": []}, "ops": ops}) + "\n")
+    n3 = len(seen3)
     # binding 2: production constants, seeded random long behaviours
     n2 = gen_table_random(beh + ".2", vlib.seed(), 25 if q else 300, 90 if q else 160)
     if n1 == 0:
         raise ToolError("behaviour generation produced nothing")
     with open(beh, "w") as f:
-        for p in (beh + ".1", beh + ".2"):
+        for p in (beh + ".1", beh + ".2", beh + ".3"):
             f.write(open(p).read())
     trace = ctx.path("trace.ndjson")
     # small-model behaviours: a sweep of closest-node probes at the end; long behaviours: probes after every operation
     vlib.vh(["table", "--in", beh + ".1", "--out", trace + ".1", "--probe", "1"])
     vlib.vh(["table", "--in", beh + ".2", "--out", trace + ".2", "--probe", "2"])
+    vlib.vh(["table", "--in", beh + ".3", "--out", trace + ".3", "--probe", "0"])
     with open(trace, "w") as f:
-        for p in (trace + ".1", trace + ".2"):
+        for p in (trace + ".1", trace + ".2", trace + ".3"):
             f.write(open(p).read())
     tv = vlib.validate_trace_parallel("trace/TableTrace.tla", ctx.cfg("tv.cfg", TABLE_TV_CFG % ", ".join('"%s"' % s for s in strict)),
                                       trace, nparts=12, timeout=3000)
@@ -683,8 +690,35 @@ def node_stats(ctx, parts):
     return n, kinds
 
 
+SERVER_MC_CFG = """SPECIFICATION Spec
+CONSTANTS
+  RO = %(ro)s
+  MAXSTEPS = %(steps)d
+  DELTAS = {1, 600000, 1200000}
+  CAPC = 2
+  GATED = %(gated)s
+INVARIANT ChecksOK
+CHECK_DEADLOCK FALSE
+"""
+
+
+def server_mc(ctx):
+    """Design level: Server.tla (composition of table, token store, peer store) against the reply-shape rules and the
+    history statements, serving and read-only; the ungated-store variant must be caught."""
+    q = ctx.quick
+    for ro in ("FALSE", "TRUE"):
+        steps = (4 if q else 5) if ro == "FALSE" else 3
+        r = vlib.tlc("mc/MC_Server.tla", ctx.cfg("mcserver-%s.cfg" % ro, SERVER_MC_CFG % dict(ro=ro, steps=steps, gated="TRUE")),
+                     workers=8 if q else 16, timeout=900 if q else 3400)
+        vlib.require_mc_ok(r, "MC_Server(RO=%s)" % ro)
+        ctx.add_mc("MC_Server(read_only=%s,steps=%d)" % (ro, steps), r)
+    neg = vlib.tlc("mc/MC_Server.tla", ctx.cfg("mcserver-neg.cfg", SERVER_MC_CFG % dict(ro="FALSE", steps=4, gated="FALSE")), workers=4, timeout=900)
+    vlib.require_mc_fails(neg, "ChecksOK", "GATED=FALSE")
+
+
 def check_C05(ctx):
     ctx.assumptions += SERVER_ASSUME
+    server_mc(ctx)
     parts, known = run_node_scenarios(ctx, server_scenarios(ctx), ["C05"], "server")
     n, kinds = node_stats(ctx, parts)
     ctx.cov["distinct_nontrivial"] = kinds.get("Recv", 0)
@@ -697,6 +731,7 @@ def check_C05(ctx):
 
 def check_C12(ctx):
     ctx.assumptions += SERVER_ASSUME + ["'a prefix the node never used' = not the prefix of any query this node has sent so far (observed on the wire)"]
+    server_mc(ctx)
     parts, known = run_node_scenarios(ctx, server_scenarios(ctx), ["C12"], "server")
     n, kinds = node_stats(ctx, parts)
     ctx.cov["distinct_nontrivial"] = kinds.get("HEnd", 0)
@@ -709,6 +744,10 @@ def check_C12(ctx):
 
 def check_C17(ctx):
     ctx.assumptions += SERVER_ASSUME + ["the recorded finding class (get_peers reply too long only because of `values`) is reported as KNOWN-FINDING, any other oversize datagram is a violation"]
+    r = vlib.tlc("mc/MC_ReplyLen.tla", "mc/MC_ReplyLen.cfg", workers=2, timeout=900)
+    vlib.require_mc_ok(r, "MC_ReplyLen")
+    ctx.add_mc("MC_ReplyLen(size model: 0..500 values x families x 0..8 nodes x tid lengths)", r)
+    ctx.cov["size_model"] = [x for x in r.out.splitlines() if "MAXFIT" in x or x.strip().startswith(("\"", "1", "5"))][:10]
     parts, known = run_node_scenarios(ctx, server_scenarios(ctx), ["C17"], "server")
     n, kinds = node_stats(ctx, parts)
     ctx.cov["distinct_nontrivial"] = kinds.get("Send", 0)
@@ -812,7 +851,8 @@ def check_C14(ctx):
     deaths = []
     limit_viol = []
     while pos < len(lines):
-        p = subprocess.run([vlib.VH, "decode"], input="\n".join(lines[pos:]) + "\n", capture_output=True, text=True, timeout=1800)
+        p = subprocess.run([vlib.VH, "decode"], input="\n".join(lines[pos:]) + "\n", capture_output=True, text=True, timeout=1800,
+                           preexec_fn=vlib.child_limits)
         outs = [json.loads(x) for x in p.stdout.splitlines() if x.startswith("{")]
         for r in outs:
             results += 1
